@@ -10,3 +10,18 @@ pub use rng::*;
 /// the null of a float series at position `i`: NaNs of both signs (x86-64 yields the sign-bit-set NaN for 0.0 / 0.0, the
 /// literal f64::NAN is the positive one); a predicate or comparison that only handles one of them is a defect
 pub fn nan_at(i: usize) -> f64 { if i % 2 == 0 { f64::NAN } else { -f64::NAN } }
+
+/// a VecDeque holding `xs` whose ring buffer has WRAPPED (the second half of `as_slices()` is non-empty whenever
+/// `xs.len() >= 2`): the state a deque reaches when it is used as a rolling buffer (push_back to capacity, pop_front,
+/// push_back …); a deque built by `collect()` is always contiguous, so an accessor that mishandles the wrap is invisible there
+pub fn wrapped_deque<T: Clone + Default>(xs: &[T]) -> std::collections::VecDeque<T> {
+    let mut d: std::collections::VecDeque<T> = std::collections::VecDeque::with_capacity(xs.len().max(1));
+    let cap = d.capacity();
+    // head offset such that about half of the elements end up before the physical end of the buffer
+    let shift = if xs.len() >= 2 { cap - xs.len() / 2 } else { 0 };
+    for _ in 0..shift { d.push_back(T::default()) }
+    for _ in 0..shift { d.pop_front(); }
+    for x in xs { d.push_back(x.clone()) }
+    debug_assert!(xs.len() < 2 || !d.as_slices().1.is_empty());
+    d
+}
